@@ -84,13 +84,22 @@ class VIntEnum(enum.IntEnum):
     HUGE = 2 ** 70
 
 
+class VIntMix(int, enum.Enum):
+    """an (int, Enum) mixin: isinstance int, but str() / format() are Enum's"""
+    SMALL = 5
+    U16 = 40000
+    U32 = 3000000000
+    NEG = -40000
+    HUGE = 2 ** 70
+
+
 class VIntFlag(enum.IntFlag):
     X = 1
     Y = 256
     Z = 65536
 
 
-V_CLASSES = (VStr, VInt, VFloat, VBytes, VByteArray, VDecimal, VDateTime, VList, VDict, VStrEnum, VIntEnum, VIntFlag)
+V_CLASSES = (VStr, VInt, VFloat, VBytes, VByteArray, VDecimal, VDateTime, VList, VDict, VStrEnum, VIntEnum, VIntFlag, VIntMix)
 
 
 def debase(v):
